@@ -149,7 +149,8 @@ namespace avel {
 
     [[nodiscard]]
     AVEL_FINL float fdim(float x, float y) {
-        return avel::max(x - y, 0.0f);
+        //x - y is NaN for equal infinities; <cmath>'s fdim returns +0 there
+        return (x <= y) ? 0.0f : x - y;
     }
 
     [[nodiscard]]
